@@ -1220,11 +1220,12 @@ def run(ctx, rep):
     rep.rule('C19.E', "every option value the parsers accept has a handler: under each accepted value no local is read where no assignment can reach it")
     rep.rule('C19.V', "no identifier / reference in the builders is built from the leftover loop variable of an earlier loop")
     rep.rule('C19.G', "an optional command-line option written into the size of a parameter is required by check_arguments under every option combination that reaches the site")
+    rep.rule('C19.D', "the object a reference-typed key resolves to (same id, co-reachable option values) has every member the referencing class reads on it")
     rep.rule('C19.N', "tensor-only torch functions are never applied to a plain Python number in the builders")
     rep.not_decided += ["finiteness of density and gradient at the initial point", "pairwise option coverage at run time", "plugins"]
     from props import c19_ids, c19_flow
     steps = ((check_types_and_keys, 'C19.K'), (check_jacobians, 'C19.J'), (check_jacobian_terms_are_evaluable, 'C19.J'), (check_make_unconstrained, 'C19.U'), (check_fixed_parameters_stay_fixed, 'C19.U'), (check_unconstraining_covers_the_configuration, 'C19.U'), (check_advi_transforms, 'C19.U'), (c19_ids.check_ids, 'C19.R'),
-             (c19_flow.check_exhaustive, 'C19.E'), (c19_flow.check_pynum, 'C19.N'), (check_stale_loop_variables, 'C19.V'), (c19_ids.check_none_sizes, 'C19.G'))
+             (c19_flow.check_exhaustive, 'C19.E'), (c19_flow.check_pynum, 'C19.N'), (check_stale_loop_variables, 'C19.V'), (c19_ids.check_none_sizes, 'C19.G'), (c19_ids.check_reference_types, 'C19.D'))
     for f, rule in steps:
         try:
             f(ctx, rep)
